@@ -10,3 +10,8 @@ func raceDisable() { runtime.RaceDisable() }
 func raceEnable()  { runtime.RaceEnable() }
 
 const RaceBuild = true
+
+// RaceDisable / RaceEnable: for the simulator's own packages (simsync), whose internal locks must not order pandora's tasks
+// in the eyes of the detector.
+func RaceDisable() { runtime.RaceDisable() }
+func RaceEnable()  { runtime.RaceEnable() }
